@@ -52,14 +52,15 @@ def setup_count(I):
 def ens_count(I, env, res):
     """errors / notes are the messages whose severity field is error / note (bounded lists)"""
     msgs = env["messages"].t
-    # the unrolled path fixes the list length: find it with small sliced queries
-    n = next((k for k in range(0, 5) if I.ctx.implied(z3.Length(msgs) == k)), None)
-    if n is None:
-        n = I.ctx.concretize(z3.Length(msgs), what="message count")
-    ne = z3.Sum([z3.If(is_error(msgs[i]), 1, 0) for i in range(n)] + [z3.IntVal(0)])
-    nn = z3.Sum([z3.If(is_note(msgs[i]), 1, 0) for i in range(n)] + [z3.IntVal(0)])
     a, b, c = [ival(I.unopt(x)) for x in res.items]
-    return z3.And(a == ne, b == nn, (c == 0) == (ne == 0), c >= 0, c <= ne)
+    # the unrolled path fixes the list length; the statement is written for every length the bound admits
+    # (no solver probing here: the goal must not depend on solver budgets)
+    cases = []
+    for n in range(0, 5):
+        ne = z3.Sum([z3.If(is_error(msgs[i]), 1, 0) for i in range(n)] + [z3.IntVal(0)])
+        nn = z3.Sum([z3.If(is_note(msgs[i]), 1, 0) for i in range(n)] + [z3.IntVal(0)])
+        cases.append(z3.Implies(z3.Length(msgs) == n, z3.And(a == ne, b == nn, (c == 0) == (ne == 0), c >= 0, c <= ne)))
+    return z3.And(z3.Length(msgs) <= 4, *cases)
 
 
 # ---- the exit-code statements of main.main
